@@ -17,7 +17,7 @@ PROPERTY = "C18"
 # CODE VARIANT FLAGS  (value = what /repo does today; see Cfg in lean/RichModel/Model/Color.lean)
 # 1: downgrade(STANDARD) sends 16-colour WINDOWS / EIGHT_BIT numbers < 16 through EIGHT_BIT_PALETTE and the
 #    palette search (renumbering 8->7, 9->1, 10->2, 12->4);  0: repaired (pending_fixes/C18-*.diff): numbers < 16 kept.
-STD_VIA_PALETTE = 1
+STD_VIA_PALETTE = 0
 
 NPROC = 16
 MAX_RADICAND = 700000  # > the largest integer get_color_distance takes the square root of (proved: dist2_le, 649,740)
